@@ -1096,3 +1096,11 @@ GROUPS["g30"] += [
       "                    && (self.dictionary.contains_exact_word(word_chars)\n                        || (!word_chars.iter().skip(1).any(|c| c.is_uppercase())\n                            && self.dictionary.contains_exact_word(&word_chars.to_lower())))\n",
       "R-C06-accept:SpellCheck::lint:report-needs-both-misses"),
 ]
+
+GROUPS["g30"] += [
+    # F31: the run-time precision is unbounded again
+    E("c01-precision-unbounded", ["C01"], "harper-core/src/number.rs",
+      "            let precision = self.precision.min(u16::MAX as usize);\n",
+      "            let precision = self.precision;\n",
+      "R-C01-fmtarg:<Number@Display>::fmt:from_usize#0"),
+]
